@@ -159,7 +159,44 @@ mod serde_json {
     impl Value {
         #[verifier::external_body]
         pub fn to_string(&self) -> (r: String) ensures r == print_spec(*self) { unimplemented!() }
+        // indexing (`v[0]`, `v["k"]`; rule R13 turns the index syntax into these calls) and the integer accessors: uninterpreted
+        // functions of the value
+        pub uninterp spec fn at_spec(&self, i: usize) -> Value;
+        pub uninterp spec fn get_spec(&self, k: &str) -> Value;
+        pub uninterp spec fn as_u64_spec(&self) -> Option<u64>;
+        pub uninterp spec fn as_i64_spec(&self) -> Option<i64>;
+        #[verifier::external_body] pub fn vp_at(&self, i: usize) -> (r: &Value) ensures *r == self.at_spec(i) { unimplemented!() }
+        #[verifier::external_body] pub fn vp_get(&self, k: &str) -> (r: &Value) ensures *r == self.get_spec(k) { unimplemented!() }
+        #[verifier::external_body] pub fn as_u64(&self) -> (r: Option<u64>) ensures r == self.as_u64_spec() { unimplemented!() }
+        #[verifier::external_body] pub fn as_i64(&self) -> (r: Option<i64>) ensures r == self.as_i64_spec() { unimplemented!() }
     }
+    impl Clone for Value { #[verifier::external_body] fn clone(&self) -> (r: Self) ensures r == *self { unimplemented!() } }
+    // the JSON object with the single member "height" (null for None): what `json!({"height": h})` builds
+    pub uninterp spec fn height_object_spec(h: Option<u64>) -> Value;
+    // C18: "the canonical JSON object with the single member height (a non-negative integer or null)"
+    pub open spec fn is_height_object(v: Value) -> bool { exists|h: Option<u64>| v == height_object_spec(h) }
+    // what `json!` serialises for the member, by the static type of the expression: unsigned integers and their Options are
+    // always a non-negative integer or null; a signed integer only when it is not negative
+    pub trait HeightMember: Sized {
+        spec fn canonical(&self) -> bool;
+        spec fn height(&self) -> Option<u64>;
+    }
+    impl HeightMember for u64 { open spec fn canonical(&self) -> bool { true } open spec fn height(&self) -> Option<u64> { Some(*self) } }
+    impl HeightMember for Option<u64> { open spec fn canonical(&self) -> bool { true } open spec fn height(&self) -> Option<u64> { *self } }
+    impl HeightMember for i64 {
+        open spec fn canonical(&self) -> bool { *self >= 0 }
+        open spec fn height(&self) -> Option<u64> { Some(*self as u64) }
+    }
+    impl HeightMember for Option<i64> {
+        open spec fn canonical(&self) -> bool { self matches Some(v) ==> v >= 0 }
+        open spec fn height(&self) -> Option<u64> { match self { Some(v) => Some(*v as u64), None => None } }
+    }
+    // [trusted:stand-in] `json!({"height": e})` (rule R13 turns the macro call into this call): requires the member to be canonical
+    #[verifier::external_body]
+    pub fn height_object<T: HeightMember>(h: T) -> (r: Value)
+        requires h.canonical(),
+        ensures r == height_object_spec(h.height()),
+    { unimplemented!() }
 }
 // [trusted:axioms] the empty string has no bytes
 #[verifier::external_body]
@@ -186,6 +223,142 @@ proof fn axiom_empty_string_bytes()
 proof fn vp_canary_axioms()
     ensures false,
 {}
+
+
+// ---------------------------------------------------------------------------------------------------------------------
+// C18: the per-endpoint extractors (endpoints.rs:17-243): the closure each endpoint hands to apply_to_body(_json).
+// R13 (macro / index desugaring): `json!({"height": e})` => serde_json::height_object(e); `v[0]` => v.vp_at(0); `v["k"]` => v.vp_get("k").
+// ---------------------------------------------------------------------------------------------------------------------
+// [trusted:assumed-spec] str::parse::<F> (uninterpreted function of the text), Result::unwrap_or_default, String::default is empty
+#[verifier::external_type_specification]
+#[verifier::external_body]
+pub struct ExParseIntError(std::num::ParseIntError);
+#[verifier::external_trait_specification]
+pub trait ExFromStr: Sized {
+    type ExternalTraitSpecificationFor: std::str::FromStr;
+    type Err;
+    fn from_str(s: &str) -> Result<Self, Self::Err>;
+}
+pub uninterp spec fn str_parse_spec<F>(s: &str) -> Option<F>;
+pub assume_specification<F: std::str::FromStr>[str::parse::<F>](s: &str) -> (r: Result<F, <F as std::str::FromStr>::Err>)
+    ensures r.is_ok() <==> str_parse_spec::<F>(s).is_some(), r matches Ok(v) ==> str_parse_spec::<F>(s) == Some(v),
+;
+pub uninterp spec fn default_of<T>() -> T;
+pub assume_specification<T: std::default::Default, E>[std::result::Result::<T, E>::unwrap_or_default](x: std::result::Result<T, E>) -> (r: T)
+    ensures x matches Ok(v) ==> r == v, x is Err ==> r == default_of::<T>(),
+;
+#[verifier::external_body]
+proof fn axiom_default_string()
+    ensures default_of::<String>()@.len() == 0,
+{}
+//@slice file=watchdog/src/endpoints.rs item="fn endpoint_bitcoin_mainnet_api_bitcore_io" block_after="apply_to_body_json(raw, |json| {" props=C18
+//@ rewrite R13 "json!\(\{\s*\"height\":\s*(.*?),?\s*\}\)" => "serde_json::height_object(\1)"
+//@ rewrite R13? "\[(\d+)\]" => ".vp_at(\1)"
+//@ rewrite R13? "\[\"([^\"]*)\"\]" => ".vp_get(\"\1\")"
+//@ head
+//@| // R8 slice: the extractor closure of endpoint_bitcoin_mainnet_api_bitcore_io
+//@| fn extractor_bitcoin_bitcore(json: serde_json::Value) -> (r: serde_json::Value)
+//@|     ensures serde_json::is_height_object(r),
+//@ tail
+//@end
+//@slice file=watchdog/src/endpoints.rs item="fn endpoint_bitcoin_mainnet_api_blockchair_com" block_after="apply_to_body_json(raw, |json| {" props=C18
+//@ rewrite R13 "json!\(\{\s*\"height\":\s*(.*?),?\s*\}\)" => "serde_json::height_object(\1)"
+//@ rewrite R13? "\[(\d+)\]" => ".vp_at(\1)"
+//@ rewrite R13? "\[\"([^\"]*)\"\]" => ".vp_get(\"\1\")"
+//@ head
+//@| // R8 slice: the extractor closure of endpoint_bitcoin_mainnet_api_blockchair_com
+//@| fn extractor_bitcoin_blockchair(json: serde_json::Value) -> (r: serde_json::Value)
+//@|     ensures serde_json::is_height_object(r),
+//@ tail
+//@end
+//@slice file=watchdog/src/endpoints.rs item="fn endpoint_bitcoin_mainnet_api_blockcypher_com" block_after="apply_to_body_json(raw, |json| {" props=C18
+//@ rewrite R13 "json!\(\{\s*\"height\":\s*(.*?),?\s*\}\)" => "serde_json::height_object(\1)"
+//@ rewrite R13? "\[(\d+)\]" => ".vp_at(\1)"
+//@ rewrite R13? "\[\"([^\"]*)\"\]" => ".vp_get(\"\1\")"
+//@ head
+//@| // R8 slice: the extractor closure of endpoint_bitcoin_mainnet_api_blockcypher_com
+//@| fn extractor_bitcoin_blockcypher(json: serde_json::Value) -> (r: serde_json::Value)
+//@|     ensures serde_json::is_height_object(r),
+//@ tail
+//@end
+//@slice file=watchdog/src/endpoints.rs item="fn endpoint_dogecoin_mainnet_api_bitcore_io" block_after="apply_to_body_json(raw, |json| {" props=C18
+//@ rewrite R13 "json!\(\{\s*\"height\":\s*(.*?),?\s*\}\)" => "serde_json::height_object(\1)"
+//@ rewrite R13? "\[(\d+)\]" => ".vp_at(\1)"
+//@ rewrite R13? "\[\"([^\"]*)\"\]" => ".vp_get(\"\1\")"
+//@ head
+//@| // R8 slice: the extractor closure of endpoint_dogecoin_mainnet_api_bitcore_io
+//@| fn extractor_dogecoin_bitcore(json: serde_json::Value) -> (r: serde_json::Value)
+//@|     ensures serde_json::is_height_object(r),
+//@ tail
+//@end
+//@slice file=watchdog/src/endpoints.rs item="fn endpoint_dogecoin_mainnet_api_blockchair_com" block_after="apply_to_body_json(raw, |json| {" props=C18
+//@ rewrite R13 "json!\(\{\s*\"height\":\s*(.*?),?\s*\}\)" => "serde_json::height_object(\1)"
+//@ rewrite R13? "\[(\d+)\]" => ".vp_at(\1)"
+//@ rewrite R13? "\[\"([^\"]*)\"\]" => ".vp_get(\"\1\")"
+//@ head
+//@| // R8 slice: the extractor closure of endpoint_dogecoin_mainnet_api_blockchair_com
+//@| fn extractor_dogecoin_blockchair(json: serde_json::Value) -> (r: serde_json::Value)
+//@|     ensures serde_json::is_height_object(r),
+//@ tail
+//@end
+//@slice file=watchdog/src/endpoints.rs item="fn endpoint_dogecoin_mainnet_api_blockcypher_com" block_after="apply_to_body_json(raw, |json| {" props=C18
+//@ rewrite R13 "json!\(\{\s*\"height\":\s*(.*?),?\s*\}\)" => "serde_json::height_object(\1)"
+//@ rewrite R13? "\[(\d+)\]" => ".vp_at(\1)"
+//@ rewrite R13? "\[\"([^\"]*)\"\]" => ".vp_get(\"\1\")"
+//@ head
+//@| // R8 slice: the extractor closure of endpoint_dogecoin_mainnet_api_blockcypher_com
+//@| fn extractor_dogecoin_blockcypher(json: serde_json::Value) -> (r: serde_json::Value)
+//@|     ensures serde_json::is_height_object(r),
+//@ tail
+//@end
+//@slice file=watchdog/src/endpoints.rs item="fn endpoint_bitcoin_mainnet_blockchain_info" block_after="apply_to_body(raw, |text| {" props=C18
+//@ rewrite R13 "json!\(\{\s*\"height\":\s*(.*?),?\s*\}\)" => "serde_json::height_object(\1)"
+//@ rewrite R9 "\.map\(\|height\| \{" => ".map(|height: u64| -> (vp_s: String) ensures vp_s == serde_json::print_spec(serde_json::height_object_spec(Some(height))) {"
+//@ head
+//@| // R8 slice: the extractor closure of endpoint_bitcoin_mainnet_blockchain_info (plain-text height)
+//@| fn extractor_bitcoin_blockchain_info(text: String) -> (r: String)
+//@|     ensures r@.len() == 0 || exists|h: u64| r == #[trigger] serde_json::print_spec(serde_json::height_object_spec(Some(h))),
+//@| {
+//@|     proof { axiom_default_string(); }
+//@ tail
+//@| }
+//@end
+//@slice file=watchdog/src/endpoints.rs item="fn endpoint_bitcoin_mainnet_blockstream_info" block_after="apply_to_body(raw, |text| {" props=C18
+//@ rewrite R13 "json!\(\{\s*\"height\":\s*(.*?),?\s*\}\)" => "serde_json::height_object(\1)"
+//@ rewrite R9 "\.map\(\|height\| \{" => ".map(|height: u64| -> (vp_s: String) ensures vp_s == serde_json::print_spec(serde_json::height_object_spec(Some(height))) {"
+//@ head
+//@| // R8 slice: the extractor closure of endpoint_bitcoin_mainnet_blockstream_info (plain-text height)
+//@| fn extractor_bitcoin_blockstream(text: String) -> (r: String)
+//@|     ensures r@.len() == 0 || exists|h: u64| r == #[trigger] serde_json::print_spec(serde_json::height_object_spec(Some(h))),
+//@| {
+//@|     proof { axiom_default_string(); }
+//@ tail
+//@| }
+//@end
+//@slice file=watchdog/src/endpoints.rs item="fn endpoint_bitcoin_mempool" block_after="apply_to_body(raw, |text| {" props=C18
+//@ rewrite R13 "json!\(\{\s*\"height\":\s*(.*?),?\s*\}\)" => "serde_json::height_object(\1)"
+//@ rewrite R9 "\.map\(\|height\| \{" => ".map(|height: u64| -> (vp_s: String) ensures vp_s == serde_json::print_spec(serde_json::height_object_spec(Some(height))) {"
+//@ head
+//@| // R8 slice: the extractor closure of endpoint_bitcoin_mempool (plain-text height)
+//@| fn extractor_bitcoin_mempool(text: String) -> (r: String)
+//@|     ensures r@.len() == 0 || exists|h: u64| r == #[trigger] serde_json::print_spec(serde_json::height_object_spec(Some(h))),
+//@| {
+//@|     proof { axiom_default_string(); }
+//@ tail
+//@| }
+//@end
+//@slice file=watchdog/src/endpoints.rs item="fn endpoint_dogecoin_mainnet_psy_protocol" block_after="apply_to_body(raw, |text| {" props=C18
+//@ rewrite R13 "json!\(\{\s*\"height\":\s*(.*?),?\s*\}\)" => "serde_json::height_object(\1)"
+//@ rewrite R9 "\.map\(\|height\| \{" => ".map(|height: u64| -> (vp_s: String) ensures vp_s == serde_json::print_spec(serde_json::height_object_spec(Some(height))) {"
+//@ head
+//@| // R8 slice: the extractor closure of endpoint_dogecoin_mainnet_psy_protocol (plain-text height)
+//@| fn extractor_dogecoin_psy(text: String) -> (r: String)
+//@|     ensures r@.len() == 0 || exists|h: u64| r == #[trigger] serde_json::print_spec(serde_json::height_object_spec(Some(h))),
+//@| {
+//@|     proof { axiom_default_string(); }
+//@ tail
+//@| }
+//@end
 
 } // verus!
 fn main() {}
